@@ -140,6 +140,47 @@ def _spec_pairwise(a: Any, b: Any) -> List[str]:
     return out
 
 
+class _ServiceDef(Sym):
+    """a service definition: asking it for a layout (extent / bit_length_set) is what the real class answers with TypeError"""
+
+    def __getattr__(self, name: str) -> Any:
+        if name in ("extent", "bit_length_set"):
+            raise Raised("TypeError", ast.parse("x.%s" % name, mode="eval").body)
+        raise AttributeError(name)
+
+
+def pairwise_never_asks_a_service_for_its_layout(ctx: Ctx) -> bool:
+    """C13's fact F-path: over every abstract pair of minor versions (services included) the pairwise check - with whatever
+    helpers it calls - never evaluates `.extent` / `.bit_length_set` of a service type"""
+    cached = getattr(ctx, "_c11_fpath", None)
+    if cached is not None:
+        return cached
+    fn = ctx.func(NS + "._ensure_minor_version_compatibility_pairwise")
+    ok = True
+    try:
+        for major in (0, 1):
+            for ma, mb in ((1, 2), (2, 1)):
+                for sa_, sb in itertools.product((False, True), repeat=2):
+                    for ia, ib in itertools.product((None, 5, 6), repeat=2):
+                        def mk(minor: int, svc: bool, fpid: Optional[int]) -> Any:
+                            d = _definition(ctx, "ns.A", major, minor, svc, fpid)
+                            if svc:
+                                d2 = _ServiceDef(**{k: v for k, v in d.__dict__.items()})
+                                return d2
+                            return d
+
+                        hook = module_call_hook(ctx, fn.module, [], [], record=[])
+                        try:
+                            call_fn(ctx, fn, [mk(ma, sa_, ia), mk(mb, sb, ib)], hook=hook, keep=tuple(fn.module.functions))
+                        except Raised as r:
+                            if r.cls_name == "TypeError":
+                                ok = False
+    except (Unfoldable, AnalysisError):
+        ok = False
+    ctx._c11_fpath = ok  # type: ignore
+    return ok
+
+
 def rule_r2(ctx: Ctx) -> None:
     ctx.rule("C11.R2", "minor-version compatibility: same kind; same port-ID or added only in the newer minor; for major>0 equal extent and equal sealing; services recurse into (request,request),(response,response)", min_instances=1)
     fn = ctx.func(NS + "._ensure_minor_version_compatibility_pairwise")
